@@ -74,7 +74,7 @@ $(G)/ppl_c.h: $(G)/ppl_c_header.h $(G)/ppl_c_version.h $(G)/ppl_c_domains.h
 
 GENHDRS := $(G)/ppl.hh $(G)/ppl_c.h $(G)/hh.stamp $(G)/cc.stamp $(addprefix $(G)/,$(COMMON_HAND))
 
-$(foreach d,$(DOMS),$(G)/ppl_c_$(d).cc): $(G)/cc.stamp ;
+$(foreach d,$(DOMS),$(G)/ppl_c_$(d).cc): | $(G)/cc.stamp
 
 # ---- 2. the C interface objects -------------------------------------------
 CIF_OBJS := $(G)/obj/ppl_c_implementation_common.o $(foreach d,$(DOMS),$(G)/obj/ppl_c_$(d).o)
@@ -90,11 +90,18 @@ $(G)/libppl_c.a: $(CIF_OBJS)
 GEN_SRCS := $(G)/gen/cifgen_core.cc $(foreach d,$(DOMS),$(G)/gen/cifgen_$(d).cc) $(G)/gen/cifgen_table.cc
 GEN_OBJS := $(patsubst $(G)/gen/%.cc,$(G)/obj/%.o,$(GEN_SRCS))
 
-$(G)/gen.stamp: $(VERIF)/tools/gen_ciface.py $(G)/ppl_c.h $(INSTANTIATIONS)
-	$(PY) $(VERIF)/tools/gen_ciface.py --header $(G)/ppl_c.h --instantiations $(INSTANTIATIONS) --outdir $(G)/gen
+# Entry points that are declared in ppl_c.h but defined nowhere in the interface
+# library cannot be linked: the generator gets the list of defined symbols and
+# emits a null thunk for them (the engine reports them as violations).
+$(G)/defined.txt: $(G)/libppl_c.a
+	nm -g --defined-only $(G)/libppl_c.a | awk 'NF == 3 && $$2 ~ /^[TDBRW]$$/ { print $$3 }' | sort -u > $@.tmp
+	cmp -s $@.tmp $@ && rm -f $@.tmp || mv -f $@.tmp $@
+
+$(G)/gen.stamp: $(VERIF)/tools/gen_ciface.py $(G)/ppl_c.h $(INSTANTIATIONS) $(G)/defined.txt
+	$(PY) $(VERIF)/tools/gen_ciface.py --header $(G)/ppl_c.h --instantiations $(INSTANTIATIONS) --defined $(G)/defined.txt --outdir $(G)/gen
 	echo timestamp > $@
 
-$(GEN_SRCS): $(G)/gen.stamp ;
+$(GEN_SRCS): | $(G)/gen.stamp
 
 $(G)/obj/cifgen_%.o: $(G)/gen/cifgen_%.cc $(GENHDRS) $(CFGDEP) $(VERIF)/harness/ciface_rt.hh
 	$(CXX) $(CIFLAGS) -I$(G)/gen -MMD -MP -c $< -o $@
